@@ -101,6 +101,13 @@ func c07Loop(e *Env, f *ssa.Function) {
 			continue
 		}
 		x, y := stripCastCalls(cmp.X), stripCastCalls(cmp.Y)
+		// a check moved into a small helper compares the helper's parameters: the arguments of its call
+		if _, isP := x.(*ssa.Parameter); isP {
+			x = stripCastCalls(core.Resolve(x))
+		}
+		if _, isP := y.(*ssa.Parameter); isP {
+			y = stripCastCalls(core.Resolve(y))
+		}
 		isLen := func(v ssa.Value) bool {
 			c, ok := v.(*ssa.Call)
 			if ok && core.CalleeName(c) == "bytes.Buffer.Len" {
